@@ -99,6 +99,26 @@ type Summary struct {
 	Leaks       int            `json:"bubble_leaks"`
 	FirstSeed   uint64         `json:"first_seed"`
 	Hashes      []string       `json:"hashes,omitempty"`
+	// ResumeAt > 0: the process stopped before run number ResumeAt of its share
+	// because it had accumulated too much memory; the driver starts a fresh
+	// process there.
+	ResumeAt int `json:"resume_at,omitempty"`
+}
+
+// memHigh: goroutines that a crashed incarnation left blocked on a native
+// channel cannot be ended from outside; they stay (with everything they
+// reference) until the process exits. The worker watches its live memory and
+// hands over to a fresh process when it grows.
+func memHigh() bool {
+	const limit = 768 << 20
+	var ms runtime.MemStats
+	runtime.ReadMemStats(&ms)
+	if ms.HeapAlloc+ms.StackInuse < limit {
+		return false
+	}
+	runtime.GC()
+	runtime.ReadMemStats(&ms)
+	return ms.HeapAlloc+ms.StackInuse >= limit
 }
 
 var lastBeat atomic.Int64
@@ -136,6 +156,12 @@ func runOne(t *testing.T, tape *simrt.Tape, a *Args, w WorldFunc, seed uint64, i
 				msg := fmt.Sprint(r)
 				if strings.Contains(msg, "deadlock") && strings.Contains(msg, "bubble") {
 					leaked = true
+					if os.Getenv("VERIF_DEBUG_LEAK") != "" {
+						buf := make([]byte, 1<<22)
+						n := runtime.Stack(buf, true)
+						fmt.Fprintf(os.Stderr, "LEAK in run %v: %s\n%s\n", curRun.Load(), msg, buf[:n])
+						os.Exit(3)
+					}
 					return
 				}
 				if he, ok := r.(simrt.HarnessError); ok {
@@ -444,7 +470,13 @@ func Main(t *testing.T, worlds map[string]WorldFunc) {
 			aa.Knobs[k] = v
 		}
 		tape := simrt.NewTape(seed)
-		r, leaked := runOne(t, tape, &aa, w, seed, idx)
+		// VERIF_TRACE_IDX=<n>: keep and dump the trace of run n of a batch
+		// (to compare a run whose hash differs between two batches)
+		traceThis := os.Getenv("VERIF_TRACE_IDX") == fmt.Sprint(idx) || os.Getenv("VERIF_TRACE_IDX") == "all"
+		r, leaked := runOne(t, tape, &aa, w, seed, idx, traceThis)
+		if traceThis {
+			os.WriteFile(fmt.Sprintf("%s.trace%d", a.Out, idx), []byte(r.EventHash+"\n"+strings.Join(r.Trace, "\n")+"\n"), 0o644)
+		}
 		if leaked {
 			sum.Leaks++
 		}
@@ -505,9 +537,17 @@ func Main(t *testing.T, worlds map[string]WorldFunc) {
 		}
 		return &r
 	}
+	lastMemCheck := 0
 	for i := 0; i < a.Count; i++ {
 		if maxWall > 0 && time.Since(start) > maxWall {
 			break
+		}
+		if sum.Runs-lastMemCheck >= 32 {
+			lastMemCheck = sum.Runs
+			if memHigh() {
+				sum.ResumeAt = i
+				break
+			}
 		}
 		if len(sum.HarnessErrs) > 3 {
 			break
